@@ -439,6 +439,11 @@ TTool ==
                      THEN {V("C19", "-t commands lists a command twice or before a command that produces one of its inputs", "")} ELSE {})
                \cup (IF E.tool = "commands1" /\ E.rc = 0 /\ ToS(seq) # one
                      THEN {V("C19", "-t commands -s does not list exactly the command of the target", "")} ELSE {})
+               \* what `-t inputs` and `-t targets all` print is the graph the manifest defines
+               \cup (IF E.tool = "inputs" /\ E.rc = 0 /\ "ins" \in DOMAIN E /\ NoDyndep(g) /\ (ToS(E.ins) # ToolInputs(g, tg) \/ ~E.sorted \/ Len(E.ins) # Cardinality(ToS(E.ins)))
+                     THEN {V("C19", "-t inputs does not list exactly the inputs the manifest names for the targets, each once, in order", "")} ELSE {})
+               \cup (IF E.tool = "targets-all" /\ E.rc = 0 /\ "tall" \in DOMAIN E /\ (ToS(E.tall) # ToolTargetsAll(g) \/ Len(E.tall) # Cardinality(ToS(E.tall)))
+                     THEN {V("C19", "-t targets all does not list every output of the manifest once with its rule", "")} ELSE {})
                \cup (IF E.json = "bad" THEN {V("C19", "compdb output is not valid JSON: -t " \o E.tool, "")} ELSE {})
                \cup (IF E.json = "badutf8" THEN {V("C19", "compdb output is not valid JSON: -t " \o E.tool, "KF-COMPDB-NON-UTF8")} ELSE {})
      IN viol' = viol \cup vs
